@@ -90,7 +90,7 @@ def main():
         shutil.copy(f"{src}/demo_path.txt", dst)
         m = {
             "property": pid,
-            "breaks": meta.get("summary"),
+            "breaks": meta.get("breaks") or meta.get("summary"),
             "needs": meta.get("needs"),
             "files_changed": meta.get("files_changed"),
             "demo_files": dict(zip(demos, paths)),
